@@ -9,8 +9,48 @@ use minidump_writer::mem_writer::{write_string_to_location, Buffer, MemoryArrayW
 use minidump_writer::minidump_format::{MDLocationDescriptor, MDRawDirectory};
 use std::panic::{catch_unwind, AssertUnwindSafe};
 
-pub fn run_memread(_world: &World, _ops: &[MemReadOp]) -> Vec<MemReadOutcome> {
-    Vec::new()
+pub fn run_memread(world: &World, ops: &[MemReadOp]) -> Vec<MemReadOutcome> {
+    use minidump_writer::mem_reader::MemReader;
+    use minidump_writer::ptrace_dumper::PtraceDumper;
+    let pid = world.pid;
+    let mut out = Vec::new();
+    // the word-by-word strategy needs a stopped tracee
+    let attached = PtraceDumper::suspend_thread(pid).is_ok();
+    for op in ops {
+        if let Ok(mut g) = LAST_PANIC.lock() {
+            *g = None;
+        }
+        let r = catch_unwind(AssertUnwindSafe(|| {
+            let reader = match op.strategy {
+                0 => Ok(MemReader::for_virtual_mem(pid)),
+                1 => MemReader::for_file(pid).map_err(|e| format!("{:?}", e)),
+                2 => Ok(MemReader::for_ptrace(pid)),
+                _ => Ok(MemReader::new(pid)),
+            };
+            match reader {
+                Err(e) => (true, Err(e)),
+                Ok(mut rd) => {
+                    let Some(len) = std::num::NonZeroUsize::new(op.len as usize) else {
+                        return (true, Err("zero length".to_string()));
+                    };
+                    (false, rd.read_to_vec(op.src as usize, len).map_err(|e| format!("{:?}", e.source)))
+                }
+            }
+        }));
+        match r {
+            Ok((setup_failed, result)) => out.push(MemReadOutcome { op: op.clone(), result, panicked: false, setup_failed }),
+            Err(_) => out.push(MemReadOutcome {
+                op: op.clone(),
+                result: Err(LAST_PANIC.lock().ok().and_then(|g| g.clone()).unwrap_or_default()),
+                panicked: true,
+                setup_failed: false,
+            }),
+        }
+    }
+    if attached {
+        let _ = PtraceDumper::resume_thread(pid);
+    }
+    out
 }
 pub fn run_elfid(_world: &World, _p: &ElfIdPlan) -> ElfOutcome {
     ElfOutcome::default()
